@@ -331,6 +331,17 @@ class SymMapping:
         return f'SymMapping({list(self.pairs)!r})'
 
 
+class AbsSeq:
+    """an abstract finite stream of atoms of UNBOUNDED symbolic length (pyvc/streams.py): element i is stream.at(sid, i),
+    the length is stream.len(sid) >= 0; only loop contracts and the ghost quantifiers can look inside"""
+
+    def __init__(self, sid):
+        self.sid = sid
+
+    def __repr__(self):
+        return f'AbsSeq({self.sid})'
+
+
 class Opaque:
     """an atom the interpreter never looks into (message strings, commentary)"""
     __slots__ = ('tag',)
